@@ -1398,12 +1398,23 @@ func c14LiveReads(c *Ctx) {
 	for _, fn := range c.P.Funcs {
 		for _, b := range fn.Blocks {
 			for _, in := range b.Instrs {
+				name := ""
+				// a getter taken as a method value (exec.LastError handed to a helper that calls it later) is a read
+				// site just like a call
+				if mc, isMC := in.(*ssa.MakeClosure); isMC {
+					if wf, isF := mc.Fn.(*ssa.Function); isF && strings.HasSuffix(wf.Name(), "$bound") && len(mc.Bindings) == 1 {
+						if it, isN := mc.Bindings[0].Type().(*types.Named); isN && strings.HasPrefix(it.Obj().Name(), "Execution") {
+							name = strings.TrimSuffix(wf.Name(), "$bound")
+						}
+					}
+				}
 				cc, isCall := in.(ssa.CallInstruction)
-				if !isCall {
+				if !isCall && name == "" {
 					continue
 				}
-				name := ""
-				if cc.Common().IsInvoke() {
+				if name != "" {
+					// fall through to the site checks below
+				} else if cc.Common().IsInvoke() {
 					name = cc.Common().Method.Name()
 					// only on execution-like interfaces
 					if it, isN := cc.Common().Value.Type().(*types.Named); !isN || !(strings.HasPrefix(it.Obj().Name(), "Execution")) {
